@@ -19,6 +19,7 @@ static void flush_line(void) { fwrite(LB, 1, LN, stdout); LN = 0; }
 static int cmp_val(const void *a, const void *b) { uintptr_t x = (uintptr_t)a, y = (uintptr_t)b; return x < y ? -3 : x > y ? 5 : 0; }   /* legal comparators need not return -1/0/1 */
 static int cmp_key(const void *a, const void *b) { uintptr_t x = (uintptr_t)a / 16, y = (uintptr_t)b / 16; return x < y ? -3 : x > y ? 5 : 0; }   /* legal comparators need not return -1/0/1 */
 static int qcmp_val(const void *a, const void *b) { return cmp_val(*(void* const*)a, *(void* const*)b); }
+static int qcmp_key(const void *a, const void *b) { return cmp_key(*(void* const*)a, *(void* const*)b); }   /* ties between distinct elements */
 static bool pred_even(const void *a) { return ((uintptr_t)a & 1) == 0; }
 static void *cp_1000(void *a) { return V((uintptr_t)a + 1000); }
 static unsigned long long logbuf[4096]; static size_t nlog = 0;
@@ -184,7 +185,7 @@ static void run_op(int argc, char **argv) {
     else if (!strcmp(op, "copy_shallow")) { CC_List *d = NULL; derived(cc_list_copy_shallow(l, &d), d); }
     else if (!strcmp(op, "copy_deep")) { CC_List *d = NULL; derived(cc_list_copy_deep(l, cp_1000, &d), d); }
     else if (!strcmp(op, "filter")) { CC_List *d = NULL; derived(cc_list_filter(l, pred_even, &d), d); }
-    else if (!strcmp(op, "sort")) P(" %s", vf_stat(cc_list_sort(l, qcmp_val)));
+    else if (!strcmp(op, "sort")) P(" %s", vf_stat(cc_list_sort(l, key ? qcmp_key : qcmp_val)));
     else if (!strcmp(op, "sort_in_place")) { cc_list_sort_in_place(l, key ? cmp_key : cmp_val); P(" OK"); }
     else if (!strcmp(op, "reduce")) { uint64_t r = 7; enum cc_stat s = cc_list_reduce(l, red_fn, &r); P(" %s", vf_stat(s)); if (s == CC_OK) P(" %llu", (unsigned long long)r); }
     else if (!strcmp(op, "iter")) { P(" OK"); run_iter(l, 0, argc, argv); }
